@@ -12,7 +12,9 @@
 # You should have received a copy of the GNU Lesser General Public
 # License along with this library.  If not, see <http://www.gnu.org/licenses/>.
 
+import io
 import token
+import tokenize
 import ast
 import warnings
 from types import FunctionType, CodeType
@@ -102,6 +104,7 @@ def dedent(src: str):
 
     Works as textwrap.dedent for ordinary code, but lines indented
     less than the first statement, such as comments in column 0,
+    and continuation lines of multi-line string literals
     are left as they are.
     """
     lines = src.split("\n")
@@ -112,8 +115,20 @@ def dedent(src: str):
             margin = line[:len(line) - len(body)]
             break
 
+    if not margin and all(line.strip(" \t") or not line for line in lines):
+        return src      # Nothing to remove
+
+    in_string = set()   # Indexes of lines continuing multi-line strings
+    try:
+        for t in tokenize.generate_tokens(io.StringIO(src).readline):
+            in_string.update(range(t.start[0], t.end[0]))
+    except (tokenize.TokenError, SyntaxError):
+        pass    # Errors are reported when the result is parsed
+
     for i, line in enumerate(lines):
-        if not line.strip(" \t"):
+        if i in in_string:
+            continue
+        elif not line.strip(" \t"):
             lines[i] = ""
         elif line.startswith(margin):
             lines[i] = line[len(margin):]
